@@ -12,7 +12,9 @@ mod laws;
 mod tree;
 mod numrun;
 mod oracle;
+mod re;
 mod rng;
+mod tables;
 mod run;
 
 use std::io::{BufRead, Write};
@@ -51,6 +53,12 @@ fn gen_stream(stream: &str, n: u64, seed: u64) {
         "rt" => for _ in 0..n { let d = 1 + r.below(4) as u32; let e = lang::gen_src_tree(&mut r, d); writeln!(w, "rt {} {}", r.below(6), show_expr(&e)).unwrap(); },
         "opt" | "optill" => for _ in 0..n { let d = gen::gen_env(&mut r); let depth = 1 + r.below(4) as u32;
             let e = tree::gen_opt_tree(&mut r, depth, stream == "optill"); writeln!(w, "opt {} {}", d.show(), show_expr(&e)).unwrap(); },
+        // deep ill-formed trees (nesting 1..=64) for the totality streams: `deep:<stream>`
+        st if st.starts_with("deep:") => { let kind = &st[5..]; for _ in 0..n {
+            let depth = 1 + r.below(64) as u32; let e = gen::gen_deep_tree(&mut r, depth); let d = gen::gen_env(&mut r);
+            match kind { "json" => writeln!(w, "json {}", show_expr(&e)).unwrap(),
+                "tcmp" => { let e2 = if r.chance(1, 3) { e.clone() } else { let d2 = 1 + r.below(64) as u32; gen::gen_deep_tree(&mut r, d2) }; writeln!(w, "tcmp {} {}", show_expr(&e), show_expr(&e2)).unwrap() }
+                k => writeln!(w, "{} {} {}", k, d.show(), show_expr(&e)).unwrap() } } }
         "chkvf" => for _ in 0..n { let d = gen::gen_env(&mut r); let depth = 1 + r.below(3) as u32;
             let ill = r.chance(1, 4); let e = if r.chance(1, 2) { tree::gen_opt_tree(&mut r, depth, false) } else { gen::gen_tree(&mut r, depth, ill) }; writeln!(w, "chkvf {} {}", d.show(), show_expr(&e)).unwrap(); },
         "chkbool" => for _ in 0..n { let d = gen::gen_env(&mut r); let depth = 1 + r.below(3) as u32;
@@ -63,6 +71,8 @@ fn gen_stream(stream: &str, n: u64, seed: u64) {
             let names: Vec<String> = call::builtin_names().into_iter().filter(|b| sel.as_ref().map_or(true, |s| s.contains(b))).collect();
             for _ in 0..n { for name in &names { let prefix = if kind == "rep" { "rep 20".to_string() } else { "call".to_string() }; writeln!(w, "{}", call::gen_call_line(&mut r, name, &prefix)).unwrap(); } }
         }
+        "re" => for _ in 0..n { writeln!(w, "{}", re::gen_re_line(&mut r)).unwrap(); },
+        "relaw" => for _ in 0..n { writeln!(w, "{}", re::gen_relaw_line(&mut r)).unwrap(); },
         "ord" => for _ in 0..n { let a = gen::gen_val(&mut r, 2); let b = if r.chance(1, 6) { a.clone() } else { gen::gen_val(&mut r, 2) }; let c = if r.chance(1, 6) { b.clone() } else { gen::gen_val(&mut r, 2) };
             writeln!(w, "ord {} {} {}", show_in(&a), show_in(&b), show_in(&c)).unwrap(); },
         "sortlaw" => for _ in 0..n { let args = call::gen_args(&mut r, "sort"); if let Some(a @ slac::Value::Array(_)) = args.first() { writeln!(w, "sortlaw {}", show_in(a)).unwrap(); } },
@@ -133,6 +143,8 @@ fn main() {
             }
         }
         Some("unicode-tables") => unicode_tables(),
+        Some("builtins-table") => tables::builtins_table(),
+        Some("dispatch-table") => tables::dispatch_table(),
         Some("oracle") => {
             let stdin = std::io::stdin(); let out = std::io::stdout(); let mut w = std::io::BufWriter::new(out.lock());
             for line in stdin.lock().lines() { writeln!(w, "{}", oracle::oracle_line(&line.unwrap())).unwrap(); }
